@@ -18,7 +18,7 @@ RULE = (
 )
 ASSUMPTIONS = ['virtual time', 'no stop / capacity overflow; one scenario in six has short event timeouts (events whose processing a timed-out awaiting ancestor interrupted are left to C10)']
 
-PH = Profile(raises=0.05, wild=0.3, maxdepth=[1, 2], max_ops=3, modes=['await', 'ff', 'later'])
+PH = Profile(raises=0.12, raise_kinds=['VE', 'custom', 'chain', 'CE', 'CE'], wild=0.3, maxdepth=[1, 2], max_ops=3, modes=['await', 'ff', 'later'])
 
 
 @st.composite
